@@ -506,3 +506,142 @@ func ruleR2_10(r *Run) {
 	}
 	r.check(n > 0, "repoManager.commit:sets-locked", "commit sets the locked flag", "commit no longer sets nodeT.locked: rule needs review", w.fpos(f))
 }
+
+func init() {
+	register(ruleDef{ID: "R2.7", Prop: "C02", Tier: "quick", Floor: 6,
+		Title: "id counters (shared with R12.1): version/repo/instance id counters are incremented under idMutex and persisted after the increment; a counter that falls back after a restart hands a committed version's id to a new, writable version",
+		Fn:    func(r *Run) { checkCounterPersist(r) }})
+	register(ruleDef{ID: "R4.6", Prop: "C04", Tier: "quick", Floor: 6,
+		Title: "id counters (shared with R12.1): every increment of an id counter is persisted before the operation is acknowledged, so a crash afterwards cannot re-issue the id",
+		Fn:    func(r *Run) { checkCounterPersist(r) }})
+	register(ruleDef{ID: "R4.7", Prop: "C04", Tier: "quick", Floor: 6,
+		Title: "log writer/replay agreement (shared with R3.5): every acknowledged mapping change is appended to the mutation log with a record type the start-up replay applies",
+		Fn:    ruleR3_5})
+}
+
+func init() {
+	register(ruleDef{ID: "R2.11", Prop: "C02", Tier: "quick", Floor: 3,
+		Title: "conflict resolution writes only into extension versions: the version DeleteConflicts deletes under is that of a node created for the purpose (newVersion) or of a supplied extension that is proved different from the committed parent, and it is the version of the very UUID recorded as the extension",
+		Fn:    ruleR2_11})
+}
+
+// sameElem: both values are loads of the same slice at the same index value.
+func sameElem(a, b ssa.Value) bool {
+	a, b = stripConv(a), stripConv(b)
+	if a == b {
+		return true
+	}
+	la, ok1 := a.(*ssa.UnOp)
+	lb, ok2 := b.(*ssa.UnOp)
+	if !ok1 || !ok2 {
+		return false
+	}
+	ia, ok1 := la.X.(*ssa.IndexAddr)
+	ib, ok2 := lb.X.(*ssa.IndexAddr)
+	return ok1 && ok2 && ia.X == ib.X && ia.Index == ib.Index
+}
+
+func ruleR2_11(r *Run) {
+	w := r.W
+	dc := w.fn("datastore", "DeleteConflicts")
+	one := w.fn("datastore", "deleteConflict")
+	if dc == nil || one == nil {
+		r.violation("datastore.DeleteConflicts", "not found", "-")
+		return
+	}
+	// extensionNode literals in DeleteConflicts: stores into fields of a fresh extensionNode
+	type lit struct {
+		al                  ssa.Value
+		oldUUID, newUUID, newV ssa.Value
+		pos                 token.Pos
+	}
+	lits := map[ssa.Value]*lit{}
+	for _, b := range dc.Blocks {
+		for _, in := range b.Instrs {
+			st, ok := in.(*ssa.Store)
+			if !ok {
+				continue
+			}
+			fa, ok := st.Addr.(*ssa.FieldAddr)
+			if !ok || !typeIs(fa.X.Type(), "datastore", "extensionNode") {
+				continue
+			}
+			l := lits[fa.X]
+			if l == nil {
+				l = &lit{al: fa.X, pos: st.Pos()}
+				lits[fa.X] = l
+			}
+			nm, _, _ := fieldName(fa)
+			switch nm {
+			case "oldUUID":
+				l.oldUUID = st.Val
+			case "newUUID":
+				l.newUUID = st.Val
+			case "newV":
+				l.newV = st.Val
+			}
+		}
+	}
+	n := 0
+	for _, l := range lits {
+		if l.newV == nil {
+			continue
+		}
+		if _, isConst := l.newV.(*ssa.Const); isConst {
+			continue // no extension yet: deleteConflict creates one
+		}
+		n++
+		// (a) newV = versionFromUUID(newUUID)
+		okSame := false
+		var vcall *ssa.Call
+		if ex, ok := l.newV.(*ssa.Extract); ok {
+			if c, ok := ex.Tuple.(*ssa.Call); ok && callName(c) == "versionFromUUID" {
+				vcall = c
+				args := c.Call.Args
+				okSame = l.newUUID != nil && sameElem(args[len(args)-1], l.newUUID)
+			}
+		}
+		r.check(okSame, "datastore.DeleteConflicts:extension-version-is-of-extension-uuid", "the version deletions are written under is versionFromUUID of the UUID recorded as the extension",
+			"the version used for conflict deletions is not the version of the UUID recorded as the parent's extension (e.g. the committed parent's own version): tombstones are written into a committed version", w.pos(l.pos))
+		// (b) the supplied extension is proved different from the committed parent
+		okDiff := false
+		if vcall != nil && l.oldUUID != nil {
+			for _, b := range dc.Blocks {
+				ifi, ok := b.Instrs[len(b.Instrs)-1].(*ssa.If)
+				if !ok {
+					continue
+				}
+				bo, ok := ifi.Cond.(*ssa.BinOp)
+				if !ok || bo.Op != token.NEQ {
+					continue
+				}
+				x, y := bo.X, bo.Y
+				match := (sameElem(x, l.newUUID) && sameElem(y, l.oldUUID)) || (sameElem(y, l.newUUID) && sameElem(x, l.oldUUID))
+				if match && guardedByEdge(ifi, 0, vcall) {
+					okDiff = true
+				}
+			}
+		}
+		r.check(okDiff, "datastore.DeleteConflicts:supplied-extension-differs-from-parent", "a supplied extension is used only when it differs from the (committed) parent it extends",
+			"DeleteConflicts accepts the committed parent itself as its own writable extension (the resolve handler feeds the parent's UUID back for parents that needed no deletion on an earlier data instance): conflict tombstones of a later data instance are written into the committed parent", w.pos(l.pos))
+	}
+	r.check(n >= 1, "datastore.DeleteConflicts:extension-records", fmt.Sprintf("%d supplied-extension records", n), "extension records not found", w.fpos(dc))
+	// deleteConflict: the delete's context version is the extension's version, created by newVersion when absent
+	okCtx, okNew := false, false
+	for _, c := range calls(one) {
+		if callName(c) == "newVersion" {
+			okNew = true
+		}
+		if callName(c) == "NewVersionedCtx" {
+			if ld, ok := stripConv(c.Common().Args[1]).(*ssa.UnOp); ok {
+				if fa, ok := ld.X.(*ssa.FieldAddr); ok {
+					if nm, _, _ := fieldName(fa); nm == "newV" {
+						okCtx = true
+					}
+				}
+			}
+		}
+	}
+	r.check(okCtx && okNew, "datastore.deleteConflict:deletes-under-extension-version", "the tombstone is written under the extension node's version; a missing extension is created by newVersion",
+		"deleteConflict does not write under the extension node's version or no longer creates the extension", w.fpos(one))
+}
